@@ -133,7 +133,8 @@ def check_case(case):
 def shard(s):
     acc = core.Acc()
     for case in s:
-        v, calls, m = check_case(case)
+        with core.istate("%r%s" % (case["comp"], case["kind"])):
+            v, calls, m = check_case(case)
         acc.states += 1
         acc.traces += 1
         acc.transitions += calls
